@@ -124,12 +124,70 @@ static Entry catalogue[] = {
   {"matvec", s_outer, r_matvec}, {"matmat", s_outer, r_matmat},
 #endif
 };
+
+#ifdef ADEPT_RECORDING_PAUSABLE
+// C10 mode "pause": every statement of the catalogue is executed (1) while recording and (2) while recording is
+// paused; prints the growth of the statement and operation stacks across the paused execution (must be 0 0),
+// the value produced in both executions, and the gradient of a statement recorded AFTER continue_recording()
+// with and without the paused section before it.
+//   U<kind> <size> | d_statements d_operations | value_recording value_paused | gradient after paused section | gradient without it
+static double total_of(Ctx& c) {
+  double t = 0; for (size_t i = 0; i < c.outs.size(); ++i) t += c.outs[i].value();
+  if (!c.outv.empty()) t += sum(value(c.outv)); if (!c.outm.empty()) t += sum(value(c.outm));
+  return t;
+}
+static void tail_gradient(std::ostream& os, Stack& stack, Ctx& c, aVector& a0, aVector& b0, adouble& p0, adouble& q0, int s) {
+  adouble z = sum(c.a * c.b) + c.p * c.q;
+  z.set_gradient(1.0); stack.compute_adjoint();
+  char buf[64];
+  for (int i = 0; i < s; ++i) { std::snprintf(buf, sizeof buf, " %.17g %.17g", a0(i).get_gradient(), b0(i).get_gradient()); os << buf; }
+  std::snprintf(buf, sizeof buf, " %.17g %.17g", p0.get_gradient(), q0.get_gradient()); os << buf;
+}
+static int pause_mode(int only) {
+  const int nk = sizeof(catalogue) / sizeof(catalogue[0]);
+  int sizes[] = {1, 2, 3, 5};
+  for (int k = 0; k < nk; ++k) {
+    if (only >= 0 && only != k) continue;
+    for (int si = 0; si < 4; ++si) {
+      int s = sizes[si];
+      std::ostringstream os;
+      os << "U" << catalogue[k].name << " " << s << " | ";
+      double v1, v2;
+      { Stack stack; Ctx c(s); aVector a0(s), b0(s); a0 = value(c.a); b0 = value(c.b); adouble p0 = 1.5, q0 = -0.75;
+        stack.new_recording(); c.a = a0 * 1.0; c.b = b0 * 1.0; c.p = p0 * 1.0; c.q = q0 * 1.0;
+        catalogue[k].setup(c); catalogue[k].run(c); v1 = total_of(c); }
+      std::ostringstream g1, g2;
+      { Stack stack; Ctx c(s); aVector a0(s), b0(s); a0 = value(c.a); b0 = value(c.b); adouble p0 = 1.5, q0 = -0.75;
+        stack.new_recording(); c.a = a0 * 1.0; c.b = b0 * 1.0; c.p = p0 * 1.0; c.q = q0 * 1.0;
+        catalogue[k].setup(c);
+        long ns = stack.n_statements(), no = stack.n_operations();
+        stack.pause_recording();
+        catalogue[k].run(c);
+        v2 = total_of(c);
+        c.outs.clear(); c.outv.clear(); c.outm.clear();     // objects made while paused die while paused
+        stack.continue_recording();
+        os << (long)stack.n_statements() - ns << " " << (long)stack.n_operations() - no << " | ";
+        tail_gradient(g1, stack, c, a0, b0, p0, q0, s); }
+      { Stack stack; Ctx c(s); aVector a0(s), b0(s); a0 = value(c.a); b0 = value(c.b); adouble p0 = 1.5, q0 = -0.75;
+        stack.new_recording(); c.a = a0 * 1.0; c.b = b0 * 1.0; c.p = p0 * 1.0; c.q = q0 * 1.0;
+        catalogue[k].setup(c);
+        tail_gradient(g2, stack, c, a0, b0, p0, q0, s); }
+      char buf[80]; std::snprintf(buf, sizeof buf, "%.17g %.17g |", v1, v2); os << buf << g1.str() << " |" << g2.str();
+      std::cout << os.str() << "\n";
+    }
+  }
+  return 0;
+}
+#endif
 static void state(std::ostream& os, Stack& st) {
   os << st.n_operations() << " " << st.n_allocated_operations() << " " << st.n_statements() << " " << st.n_allocated_statements() << " | ";
 }
 int main(int argc, char** argv) {
   const int nk = sizeof(catalogue) / sizeof(catalogue[0]);
   int default_sizes[] = {1, 2, 3, 4, 5, 9};
+#ifdef ADEPT_RECORDING_PAUSABLE
+  if (argc > 1 && std::string(argv[1]) == "pause") return pause_mode(argc > 2 ? std::atoi(argv[2]) : -1);
+#endif
   int only = argc > 1 ? std::atoi(argv[1]) : -1;
   int smax = argc > 2 ? std::atoi(argv[2]) : 0;      // search mode: all sizes 1..smax
   int dmax = argc > 3 ? std::atoi(argv[3]) : 0;      //              all spare-slot counts 0..dmax
